@@ -819,10 +819,23 @@ func (s *sim) runStream(file bool) {
 			kind, pos = 2, enumByte(j-wk*8, skipPad)
 		default:
 			s.note = "index beyond the stream"
+			s.non = false
 			return
 		}
 	} else {
-		kind = s.src.Weighted([]int{15, 45, 25, 5, 5, 5})
+		weights := []int{15, 45, 25, 5, 5, 5}
+		dataPieces := 0
+		for _, p := range pieces {
+			if len(p.Data) > 0 {
+				dataPieces++
+			}
+		}
+		if dataPieces >= 3 {
+			// several blocks: whole pieces going missing is what only the size
+			// recorded in the tail can reveal
+			weights = []int{5, 30, 15, 25, 10, 15}
+		}
+		kind = s.src.Weighted(weights)
 		switch kind {
 		case 1:
 			pos = s.drawBit(total, true)
